@@ -348,6 +348,10 @@ def job_search(cfg):
     key = f"{et} point location through the element search" + ({"R": " (rotated mesh)", "S": " (mirrored mesh)"}.get(cfg.get("motion"), "")) + (" (tapered, non-parallelogram elements)" if cfg.get("distorted") else "")
     tol_q = TOL if not cfg.get("distorted") else Fraction(1, 10 ** 8)  # iterative inverse map: its own stopping tolerance
     res.functions |= {"Mesh.Evaluate_dofsValues_at_coordinates", "_GroupElem.Get_Mapping", "_GroupElem._Get_Mapping", "_GroupElem._Get_nearby_elements", "_GroupElem.Get_Elements_Nodes", "_GroupElem._Get_coord_Near"}
+    if cfg.get("distorted"):
+        # on a non-affine element only the fields contained in the isoparametric space are reproduced exactly: the linear ones, for every
+        # element type (a quadratic in x, y is a quartic in the reference coordinates once the geometry itself is bilinear / biquadratic)
+        order = 1
     monos = monomials_total(dim, order)
     coef = [c.var("f" + "".join(map(str, m)), -1, 1) for m in monos]
     res.symbols = len(coef)
